@@ -15,6 +15,21 @@ MAX_TRIES = 400
 MAX_SECONDS = 25
 
 
+def run_scn(check, scn, want_events=False):
+    """Run a scenario `repeat` times in this process (default once) and return the last result.  A repeat count > 1
+    is used for violations that only show when library state survives from one run to the next (process-global
+    caches in the code under test): the replay file then says so explicitly."""
+    from .runner import run_one, purge_library_modules
+
+    # confirmation, minimisation and replay are hermetic: the library is imported afresh, so nothing the code under
+    # test kept from earlier runs in this process can influence the outcome
+    purge_library_modules()
+    res = None
+    for _ in range(max(1, int(scn.get("repeat", 1)))):
+        res = run_one(check, scn, want_events=want_events)
+    return res
+
+
 def has_kind(res, key):
     return (not res["harness_error"]) and any(v["kind"] == key for v in res["violations"])
 
@@ -53,7 +68,7 @@ def minimise(check, scn, key):
 
     def test_scn(c):
         tries[0] += 1
-        return has_kind(run_one(check, c), key)
+        return has_kind(run_scn(check, c), key)
 
     cur = json.loads(json.dumps(scn))
     changed = True
@@ -105,14 +120,22 @@ def report(check, scn, key, quiet=False):
     from .runner import run_one
 
     pid = check.PROPERTY
-    first = run_one(check, scn)
+    first = run_scn(check, scn)
     if not has_kind(first, key):
-        return None
-    second = run_one(check, scn)
-    if second["digest"] != first["digest"]:
+        # state carried over from earlier runs in the worker process?  Try the scenario back to back.
+        scn = dict(scn)
+        for k in (2, 3):
+            scn["repeat"] = k
+            first = run_scn(check, scn)
+            if has_kind(first, key):
+                break
+        else:
+            return None
+    second = run_scn(check, scn)
+    if second["digest"] != first["digest"] and not scn.get("repeat"):
         return None
     small, tries = minimise(check, scn, key)
-    res = run_one(check, small)
+    res = run_scn(check, small)
     if not has_kind(res, key):
         small, res = scn, first
     v = [x for x in res["violations"] if x["kind"] == key][0]
@@ -148,7 +171,7 @@ def replay_file(check, path, show_events=False):
     exp = scn.get("expected")
     scn["mode"] = "replay"
     scn.setdefault("decisions", {})
-    res = run_one(check, scn, want_events=show_events)
+    res = run_scn(check, scn, want_events=show_events)
     if res["harness_error"]:
         print("HARNESS-ERROR", res["harness_error"])
         return 2
